@@ -212,9 +212,16 @@ class HamiltonianChain(MarkovChain):
         p = self.posterior(t) * self.inv_temp
         G = zeros(self.n_parameters)
         for i in range(self.n_parameters):
-            delta = zeros(self.n_parameters) + 1
-            delta[i] += 1e-5
-            G[i] = (self.posterior(t * delta) * self.inv_temp - p) / (t[i] * 1e-5)
+            # step size relative to the coordinate (absolute if the coordinate is zero)
+            dt = 1e-5 * (abs(t[i]) if t[i] != 0.0 else 1.0)
+            if self.bounds is not None:
+                # never evaluate the posterior outside the bounds
+                dt = min(dt, 1e-5 * self.bounds.width.reshape(-1)[i])
+                if t[i] + dt > self.bounds.upper.reshape(-1)[i]:
+                    dt = -dt
+            t_step = t.copy()
+            t_step[i] += dt
+            G[i] = (self.posterior(t_step) * self.inv_temp - p) / dt
         return G
 
     def get_last(self) -> ndarray:
